@@ -268,6 +268,7 @@ type Opts struct {
 	Titles                    bool // some layer descriptors carry a title annotation (file-store names), one fixed name per blob
 	TitleClash                bool // with Titles: two different blobs share one title (a file store must refuse the second)
 	SHA512                    bool // some blobs are addressed by sha512 digests (long blob paths: PAX records in tar archives)
+	MixedCaseConfigTypes      bool // some custom config media types carry upper-case letters (media types are compared as written)
 	Trees                     int  // number of Tree nodes added on top (custom FindSuccessors needed to traverse them)
 	URLsOnLayers              bool // some ordinary (distributable) layer and manifest descriptors carry the optional urls property
 }
@@ -431,6 +432,9 @@ func Generate(rng *rand.Rand, o Opts) *DAG {
 				data = []byte("{}")
 			case 1:
 				mt = "application/vnd.test.config.v1+json"
+				if o.MixedCaseConfigTypes && rng.IntN(2) == 0 {
+					mt = "application/vnd.CNAB.Config.v1+json"
+				}
 				data, _ = json.Marshal(map[string]any{"salt": rng.Uint64()})
 			default:
 				data, _ = json.Marshal(map[string]any{"architecture": "amd64", "os": "linux", "salt": rng.Uint64()})
